@@ -419,7 +419,7 @@ fn gen_order(rng: &mut Rng, tier: &str) -> Vec<(String, Value)> {
                   ver(2, 1, vec![obj("a.roa", "roa", 0, &[]), obj("c.roa", "roa", 2, &[])])], vec![run(Some(0)), run_o(1, &p)])));
     }
     // random: 2..5 objects, one or two faulty files, random permutation
-    let n_rand = if thorough { 150 } else { 24 };
+    let n_rand = if thorough { 400 } else { 60 };
     for _ in 0..n_rand {
         let n = rng.range(2, 5) as usize;
         let kinds = ["roa", "roa", "aspa", "router", "other", "gbr", "roa2"];
@@ -516,7 +516,7 @@ fn gen_hist(rng: &mut Rng, tier: &str) -> Vec<(String, Value)> {
         out.push((format!("object-fault-{}", f), scen("child", vec![v1(), v2], vec![run(Some(0)), run(Some(1)), json!({"serve": 1, "no_update": true})])));
     }
     // random histories over 3 versions with random numbers/times/faults and 3-4 runs
-    let n_rand = if thorough { 200 } else { 24 };
+    let n_rand = if thorough { 600 } else { 80 };
     for _ in 0..n_rand {
         let mut versions = Vec::new();
         for i in 0..3u64 {
@@ -567,7 +567,7 @@ fn gen_tamper(rng: &mut Rng, tier: &str) -> Vec<(String, Value)> {
         out.push(("tamper-invalid-collected".into(), scen("child", vec![v1(), g], vec![run(Some(0)), json!({"serve": 1, "stale": "reject", "tamper": t(9, 9)})])));
     }
     out.push(("tamper-no-collector".into(), scen("child", vec![v1()], vec![run(Some(0)), json!({"serve": 0, "stale": "reject", "tamper": t(9, 9), "no_update": true})])));
-    let n = if tier == "thorough" { 60 } else { 8 };
+    let n = if tier == "thorough" { 200 } else { 20 };
     for _ in 0..n {
         let cn = rng.range(3, 8);
         let ct = rng.range(3, 8) as i64;
